@@ -2,4 +2,12 @@ package main
 
 import "qedverif/cq"
 
-func dispatch2(cmd string, out *cq.Out, seed uint64, tier, arg string) bool { return false }
+func dispatch2(cmd string, out *cq.Out, seed uint64, tier, arg string) bool {
+	switch cmd {
+	case "fsm":
+		fsmCmd(out, seed, tier)
+	default:
+		return dispatch3(cmd, out, seed, tier, arg)
+	}
+	return true
+}
